@@ -33,13 +33,20 @@ static void interior(Rng& r, const std::string& sol, int n, long double* x) {
   (void)n;
 }
 
-template <class S> static void c14(Rng& r, const std::vector<std::string>& names) {
+// policy 0: one handle re-used for every entry (the re-used handle is the current one); 1: three handles used round-robin (the re-used
+// handle is NOT the current one); 2: a fresh handle per entry, in a shuffled order
+template <class S> static void c14(Rng& r, std::vector<std::string> names, int policy, int npts) {
   const std::string P = ST<S>::name();
   Model<S> m;
+  if (policy == 2) for (size_t i = names.size(); i > 1; i--) std::swap(names[i - 1], names[(size_t)r.below((int)i)]);
+  long seq = 0;
   for (auto& name : names) {
     const SolSpec* sp = find_sol(name);
-    hist("masa_init<" + P + ">(\"cat\",\"" + name + "\")");
-    Outcome o = guarded([&] { masa_init<S>("cat", name); }, false);
+    const std::string H = policy == 0 ? "cat" : policy == 1 ? "pool-" + std::to_string(seq % 3) : "own-" + std::to_string(seq);
+    seq++;
+    hist("masa_init<" + P + ">(\"" + H + "\",\"" + name + "\")");
+    Outcome o = guarded([&] { masa_init<S>(H, name); }, false);
+    LOG.count("catalogue_inits", 1);
     if (o.fatal || o.abnormal) { hviol("C14", "listed-name-not-initialisable:" + name, "masa_init(\"" + name + "\") failed although masa_printid lists it"); continue; }
     std::string got; masa_get_name<S>(&got);
     if (got != name) hviol("C14", "get_name-differs:" + name, "masa_get_name returned '" + got + "' after masa_init(\"" + name + "\")");
@@ -54,7 +61,7 @@ template <class S> static void c14(Rng& r, const std::vector<std::string>& names
     if (dim != sp->dim) hviol("C14", "dimension:" + name, "masa_get_dimension = " + std::to_string(dim) + ", evaluators take " + std::to_string(sp->dim) + " coordinates");
     for (auto& id : sp->prov) {
       const Ev& e = api()[ev_index(id)];
-      for (int k = 0; k < 16; k++) {
+      for (int k = 0; k < npts; k++) {
         long double x[4]; interior(r, name, e.n, x);
         S a[4]; for (int i = 0; i < 4; i++) a[i] = (S)x[i];
         int idx = e.kind == KI ? 1 + k % (e.n >= 4 ? 3 : e.n) : (e.kind == KK ? k % 7 : 0);
@@ -127,7 +134,9 @@ int main(int argc, char** argv) {
       LOG.distinct("catalogue_names", n);
     }
     for (auto& s : catalogue()) if (!seen.count(s.name)) LOG.distinct("spec_entries_missing_from_build", s.name);
-    if (prec == "d") c14<double>(r, nd); else c14<long double>(r, nl);
+    for (int policy = 0; policy < 3; policy++) {
+      if (prec == "d") c14<double>(r, nd, policy, policy == 0 ? 16 : 3); else c14<long double>(r, nl, policy, policy == 0 ? 16 : 3);
+    }
   } else {
     if (prec == "d") c15<double>(r, nd, part, nparts); else c15<long double>(r, nl, part, nparts);
   }
